@@ -32,6 +32,11 @@ def jobs(tier, seed):
             for p in cells((h, w)):
                 out.append({'name': 'g%d-maxd%s-cell%d%d' % (gi, maxd, p[0], p[1]), 'shape': [h, w], 'chunks': [list(cy), list(cx)], 'maxd': maxd, 'sym': [list(p)],
                             'metric': 'EUCLIDEAN', 'dy': 2.0})
+        # square cells, descending y, no `res` attribute: the cell size then comes from the coordinate extents (a wide raster: x extent != y extent)
+        for p in cells((h, w)):
+            if tier != 'quick' or (p[0] + p[1] + gi) % 2 == 0:
+                out.append({'name': 'g%d-square-maxd2.0-cell%d%d' % (gi, p[0], p[1]), 'shape': [h, w], 'chunks': [list(cy), list(cx)], 'maxd': 2.0, 'sym': [list(p)],
+                            'metric': 'EUCLIDEAN', 'dy': -1.0})
         out.append({'name': 'g%d-inf' % gi, 'shape': [h, w], 'chunks': [list(cy), list(cx)], 'maxd': None, 'sym': [[0, 0], [2, 3]], 'metric': 'EUCLIDEAN', 'dy': 2.0})
     # explicit target_values with a symbolic target (0 included) on coordinates that start at 0: padding must never look like a target
     for gi, (cy, cx) in enumerate(grids):
